@@ -19,7 +19,11 @@ func vHostSeqTest(t *testing.T, id string, mon vMonitors, quick, thorough int) *
 			continue
 		}
 		h.CaseLight("seq", i)
-		vRunHostSequence(h, "seq", i, h.Rng("seq", i), mon)
+		m := mon
+		if mon.ledger && i%4 == 0 {
+			m.transferBias = true // more transfers that reach the balance step
+		}
+		vRunHostSequence(h, "seq", i, h.Rng("seq", i), m)
 		h.Distinct("seq", i)
 	}
 	h.Sample(map[string]any{"sequence": "1..40 host calls on one generated accumulation context (caller + 0..3 other accounts, dictionary and raw-pool entries, 4 RW pages + 1 RO page)", "ops": fmt.Sprint(len(vSeqOps))})
